@@ -213,6 +213,11 @@ func (h H) openStorageLoads(rule string, which ...string) {
 				a, v := fi.Sym(st.Addr).String(), fi.Sym(st.Val).String()
 				if strings.HasSuffix(a, t.field) && !strings.Contains(strings.TrimSuffix(a, t.field), ".") && strings.HasSuffix(v, t.valSuffix) && strings.HasPrefix(v, t.valPrefix) {
 					hits = append(hits, in)
+				} else if w != "last" && strings.HasSuffix(a, t.field) && !strings.Contains(strings.TrimSuffix(a, t.field), ".") {
+					// identity, term and vote are what the files say, nothing else:
+					// a second assignment (a vote "forgotten" on restart) replaces
+					// what was acknowledged before the restart
+					h.C.Check(rule+" only-what-was-persisted", "openStorage store storage"+t.field+" := "+core.Short(v, 80), false, h.pos(in), "openStorage assigns storage"+t.field+" a value other than the persisted one ("+t.valPrefix+"…"+t.valSuffix+"): the node restarts with a term, vote or identity it did not acknowledge")
 				}
 				// latestIndex()/latest() accessor forms of the snapshot label
 				if w == "last" && strings.HasSuffix(a, t.field) && strings.HasPrefix(v, "(*snapshots).latest") {
